@@ -284,7 +284,7 @@ def c12(tier, seed):
             grp('fold-unique-disjoint', 'VH_foldUnique', [[a, b] for i, a in enumerate(lists) for b in lists[i:]], cost=1,
                 bound='all pairs of entries of the three lists', symbolic='two list indices', asserts=[]),
             grp('listed', 'VH_listed', [[l] for l in lists], merge=M, cost=10, bound='every entry of each list', symbolic='list index',
-                asserts=['id-accepted', 'exception-after-with', 'exception-after-with-only'])]
+                asserts=['id-accepted', 'id-reported-as-listed', 'exception-after-with', 'exception-after-with-only'])]
 
 
 # ---------------------------------------------------------------- trees
